@@ -20,4 +20,3 @@ for p in $PROPS; do
   echo "check $p $TIER rc=$rc: $(echo "$out" | grep -E "^$p " | head -1)"
   echo "$out" | grep -E "sig=|DATA RACE" | sed 's/^ *//' | cut -c1-260 | sort | uniq -c | sort -rn | head -4
 done
-rm -rf /verif/.build/alt-* /verif/.build/altbin-*
